@@ -11,6 +11,7 @@ import (
 	"encoding/hex"
 	"encoding/json"
 	"fmt"
+	"os"
 	"regexp"
 	"strings"
 
@@ -20,6 +21,7 @@ import (
 	"github.com/tetratelabs/wazero/verifharness/core"
 	"github.com/tetratelabs/wazero/verifharness/wdis"
 	"github.com/tetratelabs/wazero/verifharness/wgen"
+	"github.com/tetratelabs/wazero/verifharness/wreduce"
 	"github.com/tetratelabs/wazero/verifharness/wrun"
 )
 
@@ -51,7 +53,7 @@ type lresult struct {
 }
 
 func run(c *core.Ctx) int {
-	n := c.N(4000, 90000)
+	n := c.N(1200, 60000)
 	rng := core.NewRng(c.Seed, 20)
 	var cases []json.RawMessage
 	for i := 0; i < n; i++ {
@@ -107,11 +109,28 @@ func run(c *core.Ctx) int {
 
 // ---------------------------------------------------------------------------
 
+// fid identifies a function: index in its module; functions of host modules
+// (module name != "") have bit 20 set. Generated guests have no name section.
+type fid int32
+
+const hostBit = 1 << 20
+
+func (f fid) host() bool  { return f&hostBit != 0 }
+func (f fid) idx() uint32 { return uint32(f &^ hostBit) }
+func (f fid) String() string {
+	if f.host() {
+		return fmt.Sprintf("env.%d", f.idx())
+	}
+	return fmt.Sprintf("guest.%d", f.idx())
+}
+
+func guestFid(idx uint32) fid { return fid(idx) }
+
 type ev struct {
 	K     byte // B A X
-	Key   string
+	Key   fid
 	Vals  []uint64
-	Stack []string
+	Stack []fid
 	Step  int
 }
 
@@ -137,27 +156,65 @@ type viol struct {
 	rule   string
 	detail string
 	tc     bool // a tail-calling function is involved
+	tail   string
+	at     int // index into the event stream
+}
+
+// addViol records a violation with the event-stream tail at that moment.
+func (r *recorder) addViol(rule, detail string, tc bool) {
+	if len(r.viols) >= 40 {
+		return
+	}
+	for _, v := range r.viols {
+		if v.rule == rule && v.tc == tc {
+			return
+		}
+	}
+	r.viols = append(r.viols, viol{rule, detail, tc, tail(r.events, 14), len(r.events)})
 }
 
 type recorder struct {
 	engine   string
 	all      bool
-	listened func(mod string, idx uint32) bool
-	tcFuncs  map[string]bool // keys of functions whose body contains return_call*
+	listened func(f fid) bool
+	tcFuncs  map[fid]bool // functions whose body contains return_call*
+	fids     map[api.FunctionDefinition]fid
 	events   []ev
-	stack    []string
+	stack    []fid
+	depths   []int // real call depth (iterator length) at the Before of each open frame
 	actBase  []int
 	viols    []viol
 	step     int
 	maxDepth int
 	iterChk  int
 	counts   map[string]int
+	overflow bool // more than maxEvents events: stream-based checks are skipped
+	abortRun int  // consecutive Abort events most recently delivered
+	tcSeen   bool // a tail-calling function was entered in the current step
 }
 
-func key(d api.FunctionDefinition) string { return fmt.Sprintf("%s.%d", d.ModuleName(), d.Index()) }
+func rawFid(d api.FunctionDefinition) fid {
+	f := fid(d.Index())
+	if d.ModuleName() != "" {
+		f |= hostBit
+	}
+	return f
+}
+
+func (r *recorder) key(d api.FunctionDefinition) fid {
+	if f, ok := r.fids[d]; ok {
+		return f
+	}
+	f := rawFid(d)
+	if r.fids == nil {
+		r.fids = map[api.FunctionDefinition]fid{}
+	}
+	r.fids[d] = f
+	return f
+}
 
 func (r *recorder) NewFunctionListener(d api.FunctionDefinition) experimental.FunctionListener {
-	if !r.listened(d.ModuleName(), d.Index()) {
+	if !r.listened(rawFid(d)) {
 		return nil
 	}
 	return r
@@ -180,11 +237,20 @@ func canon(ts []api.ValueType, vals []uint64) []uint64 {
 			j++
 		}
 	}
+	// keep exactly the slots the signature declares: a longer slice handed to
+	// the listener is not meant to be read beyond that
+	if j < len(out) {
+		out = out[:j]
+	}
 	return out
 }
 
-func (r *recorder) tcInvolved(k string) bool {
-	if r.tcFuncs[k] {
+// tcInvolved: a function that performs a tail call has been entered during
+// the current top-level call (sticky until the step ends): the engines'
+// handling of tail calls under listeners is a known finding and desynchronises
+// every later event of that call.
+func (r *recorder) tcInvolved(k fid) bool {
+	if r.tcSeen || r.tcFuncs[k] {
 		return true
 	}
 	for _, f := range r.stack {
@@ -196,35 +262,50 @@ func (r *recorder) tcInvolved(k string) bool {
 }
 
 func (r *recorder) Before(ctx context.Context, mod api.Module, d api.FunctionDefinition, params []uint64, it experimental.StackIterator) {
-	k := key(d)
-	var st []string
-	for it.Next() {
-		st = append(st, key(it.Function().Definition()))
-		if len(st) > 4000 {
-			break
-		}
-	}
+	k := r.key(d)
 	r.stack = append(r.stack, k)
 	if len(r.stack) > r.maxDepth {
 		r.maxDepth = len(r.stack)
 	}
 	r.counts["before"]++
-	r.events = append(r.events, ev{K: 'B', Key: k, Vals: canon(d.ParamTypes(), params), Stack: st, Step: r.step})
+	r.abortRun = 0
+	if r.tcFuncs[k] {
+		r.tcSeen = true
+	}
+	// deep recursions: the iterator is walked and compared only up to maxIter
+	// frames (cost is quadratic in depth otherwise)
+	const maxIter = 48
+	var st []fid
+	truncated := false
+	depth := 0
+	for it.Next() {
+		depth++
+		if len(st) >= maxIter {
+			truncated = true
+			if depth > 4000 {
+				break
+			}
+			continue
+		}
+		st = append(st, r.key(it.Function().Definition()))
+	}
+	r.depths = append(r.depths, depth)
+	r.record(ev{K: 'B', Key: k, Vals: canon(d.ParamTypes(), params), Stack: st, Step: r.step})
 	// iterator checks (bounded depth: the shadow stack of very deep recursions is not compared frame by frame)
 	if len(st) == 0 {
-		r.viols = append(r.viols, viol{"iterator-empty", "Before " + k + ": iterator has no entry", r.tcInvolved(k)})
+		r.addViol("iterator-empty", "Before "+k.String()+": iterator has no entry", r.tcInvolved(k))
 		return
 	}
 	if st[0] != k {
-		r.viols = append(r.viols, viol{"iterator-first-not-callee", fmt.Sprintf("Before %s: iterator starts with %s (iterator %v)", k, st[0], trunc(st)), r.tcInvolved(k)})
+		r.addViol("iterator-first-not-callee", fmt.Sprintf("Before %s: iterator starts with %s (iterator %v)", k, st[0], trunc(st)), r.tcInvolved(k))
 		return
 	}
 	base := 0
 	if len(r.actBase) > 0 {
 		base = r.actBase[len(r.actBase)-1]
 	}
-	want := make([]string, 0, len(r.stack)-base)
-	for i := len(r.stack) - 1; i >= base; i-- {
+	want := make([]fid, 0, maxIter)
+	for i := len(r.stack) - 1; i >= base && len(want) < maxIter; i-- {
 		want = append(want, r.stack[i])
 	}
 	got := st
@@ -236,33 +317,76 @@ func (r *recorder) Before(ctx context.Context, mod api.Module, d api.FunctionDef
 			}
 		}
 	}
+	if truncated || len(st) == maxIter {
+		// compare the common prefix only
+		n := min(len(got), len(want))
+		got, want = got[:n], want[:n]
+	}
 	r.iterChk++
-	if len(want) <= 600 && strings.Join(got, ",") != strings.Join(want, ",") {
-		r.viols = append(r.viols, viol{"iterator-differs-from-call-chain", fmt.Sprintf("Before %s: iterator %v, shadow stack of this activation (top first) %v", k, trunc(got), trunc(want)), r.tcInvolved(k)})
+	if r.engine == "compiler" && (depth == 30 || depth == 29) && len(want) > len(got) && eqFids(got, want[:len(got)]) {
+		r.addViol("iterator-truncated-at-30-frames", fmt.Sprintf("Before %s: the iterator lists only the innermost 30 frames of a deeper call chain (shadow stack depth in this activation: %d)", k, len(r.stack)-base), false)
+	} else if !eqFids(got, want) {
+		di := 0
+		for di < len(got) && di < len(want) && got[di] == want[di] {
+			di++
+		}
+		lo := di - 2
+		if lo < 0 {
+			lo = 0
+		}
+		r.addViol("iterator-differs-from-call-chain", fmt.Sprintf("Before %s: iterator has %d entries, shadow stack of this activation %d (both capped at 48); first difference at index %d: iterator[%d:]=%v shadow[%d:]=%v", k, len(got), len(want), di, lo, trunc(got[min(lo, len(got)):]), lo, trunc(want[min(lo, len(want)):])), r.tcInvolved(k))
 	}
 }
 
-func (r *recorder) listenedKey(k string) bool {
-	i := strings.LastIndexByte(k, '.')
-	var idx uint32
-	fmt.Sscanf(k[i+1:], "%d", &idx)
-	return r.listened(k[:i], idx)
+// record keeps at most maxEvents events (the automaton and counters keep running).
+const maxEvents = 30000
+
+func (r *recorder) record(e ev) {
+	if len(r.events) < maxEvents {
+		r.events = append(r.events, e)
+	} else {
+		r.overflow = true
+	}
 }
 
-func trunc(s []string) []string {
-	if len(s) > 12 {
-		return append(append([]string(nil), s[:12]...), "…")
+func (r *recorder) listenedKey(k fid) bool { return r.listened(k) }
+
+func eqFids(a, b []fid) bool {
+	if len(a) != len(b) {
+		return false
 	}
-	return s
+	for i := range a {
+		if a[i] != b[i] {
+			return false
+		}
+	}
+	return true
+}
+
+func trunc(s []fid) []string {
+	var out []string
+	for i, f := range s {
+		if i >= 12 {
+			out = append(out, "…")
+			break
+		}
+		out = append(out, f.String())
+	}
+	return out
 }
 
 func (r *recorder) close(kind byte, d api.FunctionDefinition, vals []uint64) {
-	k := key(d)
+	k := r.key(d)
 	name := map[byte]string{'A': "after", 'X': "abort"}[kind]
 	r.counts[name]++
-	r.events = append(r.events, ev{K: kind, Key: k, Vals: vals, Step: r.step})
+	if kind == 'X' {
+		r.abortRun++
+	} else {
+		r.abortRun = 0
+	}
+	r.record(ev{K: kind, Key: k, Vals: vals, Step: r.step})
 	if len(r.stack) == 0 {
-		r.viols = append(r.viols, viol{name + "-without-open-before", fmt.Sprintf("%s %s with an empty shadow stack", name, k), r.tcFuncs[k]})
+		r.addViol(name+"-without-open-before", fmt.Sprintf("%s %s with an empty shadow stack", name, k), r.tcInvolved(k))
 		return
 	}
 	top := r.stack[len(r.stack)-1]
@@ -276,22 +400,24 @@ func (r *recorder) close(kind byte, d api.FunctionDefinition, vals []uint64) {
 		}
 		tc := r.tcInvolved(k)
 		if open {
-			r.viols = append(r.viols, viol{name + "-not-for-innermost-open-call", fmt.Sprintf("%s %s while innermost open call is %s (stack top-first %v)", name, k, top, trunc(rev(r.stack))), tc})
+			r.addViol(name+"-not-for-innermost-open-call", fmt.Sprintf("%s %s while innermost open call is %s (stack top-first %v)", name, k, top, trunc(rev(r.stack))), tc)
 			// pop down to it to resynchronise
 			for len(r.stack) > 0 && r.stack[len(r.stack)-1] != k {
 				r.stack = r.stack[:len(r.stack)-1]
 			}
 			r.stack = r.stack[:len(r.stack)-1]
+			r.depths = r.depths[:len(r.stack)]
 		} else {
-			r.viols = append(r.viols, viol{name + "-without-open-before", fmt.Sprintf("%s %s but no Before of it is open (stack top-first %v)", name, k, trunc(rev(r.stack))), tc})
+			r.addViol(name+"-without-open-before", fmt.Sprintf("%s %s but no Before of it is open (stack top-first %v)", name, k, trunc(rev(r.stack))), tc)
 		}
 		return
 	}
 	r.stack = r.stack[:len(r.stack)-1]
+	r.depths = r.depths[:len(r.stack)]
 }
 
-func rev(s []string) []string {
-	o := make([]string, len(s))
+func rev(s []fid) []fid {
+	o := make([]fid, len(s))
 	for i := range s {
 		o[len(s)-1-i] = s[i]
 	}
@@ -306,18 +432,37 @@ func (r *recorder) Abort(ctx context.Context, mod api.Module, d api.FunctionDefi
 	r.close('X', d, nil)
 }
 
-// endStep: after a top-level call returned, nothing may remain open.
-func (r *recorder) endStep() {
-	if len(r.stack) > 0 {
-		tc := false
-		for _, f := range r.stack {
-			if r.tcFuncs[f] {
-				tc = true
-			}
-		}
-		r.viols = append(r.viols, viol{"before-never-closed", fmt.Sprintf("%d Before events without After/Abort when the top-level call returned; open (top first): %v", len(r.stack), trunc(rev(r.stack))), tc})
-		r.stack = r.stack[:0]
+// closeActivation: when an api.Function.Call returned (top-level step or the
+// harness's re-entering host function), no Before of that activation may still
+// be open. Both engines cap the unwinding at wasmdebug.MaxFrames (30) frames,
+// so a failure deeper than that is classified separately.
+func (r *recorder) closeActivation(base int) {
+	if len(r.stack) <= base {
+		return
 	}
+	open := r.stack[base:]
+	tc := r.tcSeen
+	for _, f := range open {
+		if r.tcFuncs[f] {
+			tc = true
+		}
+	}
+	// Both engines stop notifying after wasmdebug.MaxFrames (30) frames: with
+	// listeners on all functions the unwinding then delivered 29-30 Aborts in a
+	// row and left the outer frames open.
+	rule := "before-never-closed"
+	if r.all && r.abortRun >= 29 {
+		rule = "before-never-closed:unwinding-stopped-after-30-frames"
+	}
+	r.addViol(rule, fmt.Sprintf("%d Before events without After/Abort when the call that started this activation returned (Abort events delivered by the unwinding: %d); open (top first): %v",
+		len(open), r.abortRun, trunc(rev(open))), tc)
+	r.stack = r.stack[:base]
+	r.depths = r.depths[:base]
+}
+
+func (r *recorder) endStep() {
+	r.closeActivation(0)
+	r.tcSeen = false
 	r.actBase = r.actBase[:0]
 }
 
@@ -329,13 +474,13 @@ type runOut struct {
 	stepOut []string // outcome class per step ("" for non-call steps)
 }
 
-func tailCallFuncs(p *wgen.Program) map[string]bool {
-	out := map[string]bool{}
+func tailCallFuncs(p *wgen.Program) map[fid]bool {
+	out := map[fid]bool{}
 	nImp := uint32(len(p.Host))
 	for i, f := range p.Mod.Funcs {
 		for _, in := range wdis.Instrs(f.Body) {
 			if strings.HasPrefix(in.Name, "return_call") {
-				out[fmt.Sprintf("guest.%d", nImp+uint32(i))] = true
+				out[guestFid(nImp+uint32(i))] = true
 			}
 		}
 	}
@@ -344,12 +489,12 @@ func tailCallFuncs(p *wgen.Program) map[string]bool {
 
 func runWith(p *wgen.Program, script []wrun.Step, compiler bool, mode int, subsetSeed uint64, cache wazero.CompilationCache) *runOut {
 	rec := &recorder{engine: map[bool]string{false: "interp", true: "compiler"}[compiler], all: mode == 1, tcFuncs: tailCallFuncs(p), counts: map[string]int{}}
-	rec.listened = func(mod string, idx uint32) bool {
+	rec.listened = func(f fid) bool {
 		if mode == 1 {
 			return true
 		}
-		h := subsetSeed ^ uint64(idx)*0x9E3779B97F4A7C15
-		if mod != "guest" {
+		h := subsetSeed ^ uint64(f.idx())*0x9E3779B97F4A7C15
+		if f.host() {
 			h ^= 0xabcdef
 		}
 		h ^= h >> 29
@@ -357,13 +502,14 @@ func runWith(p *wgen.Program, script []wrun.Step, compiler bool, mode int, subse
 		return (h>>17)&3 != 0 // ~75% of the functions
 	}
 	ctx := context.Background()
-	opt := wrun.Options{Compiler: compiler}
+	opt := wrun.Options{Compiler: compiler, NoDigest: true}
 	if mode != 0 {
 		ctx = experimental.WithFunctionListenerFactory(ctx, rec)
 		opt.OnReenter = func(enter bool) {
 			if enter {
 				rec.actBase = append(rec.actBase, len(rec.stack))
 			} else if len(rec.actBase) > 0 {
+				rec.closeActivation(rec.actBase[len(rec.actBase)-1])
 				rec.actBase = rec.actBase[:len(rec.actBase)-1]
 			}
 		}
@@ -419,6 +565,14 @@ func child(mode string, in json.RawMessage) any {
 		}
 		lr.Findings = append(lr.Findings, finding{sig, detail})
 	}
+	has := func(sig string) bool {
+		for _, f := range lr.Findings {
+			if f.Sig == sig {
+				return true
+			}
+		}
+		return false
+	}
 	usesTC := p.OpsUsed["return_call"]+p.OpsUsed["return_call_indirect"] > 0
 
 	if lc.Shared {
@@ -426,7 +580,8 @@ func child(mode string, in json.RawMessage) any {
 	}
 
 	var streams [2][]ev
-	var soverflow bool
+	var unclosedAll [2]bool
+	var soverflow, streamOverflow bool
 	for e := 0; e < 2; e++ {
 		compiler := e == 1
 		eng := map[bool]string{false: "interp", true: "compiler"}[compiler]
@@ -447,11 +602,27 @@ func child(mode string, in json.RawMessage) any {
 			}
 			// qualify and report automaton violations
 			for _, v := range rec.viols {
-				q := ""
-				if v.tc {
-					q = ":tailcall-function-involved"
+				q, pre := "", ""
+				// with a listener subset a tail-calling function may itself be unlistened and
+				// desynchronise the stream invisibly: attribute by program then
+				if v.tc || (lmode == 2 && usesTC) {
+					pre = "tailcall-function-involved:"
 				}
-				add(fmt.Sprintf("%s:%s%s", v.rule, eng, q), fmt.Sprintf("listeners=%s engine=%s\n%s\nstream tail:\n%s", set, eng, v.detail, tail(rec.events, 14)))
+				if strings.HasPrefix(v.rule, "before-never-closed") {
+					if o.t.StackOverflow {
+						q += ":run-hit-stack-overflow"
+					}
+					if lmode == 1 {
+						unclosedAll[e] = true
+					} else if unclosedAll[e] {
+						continue // same cause as reported for the all-functions set
+					}
+				}
+				sig := fmt.Sprintf("%s%s:%s%s", pre, v.rule, eng, q)
+				if has(sig) {
+					continue
+				}
+				add(sig, fmt.Sprintf("listeners=%s engine=%s\n%s\nstream tail at that moment:\n%s", set, eng, v.detail, v.tail))
 			}
 			// stack overflow qualification: re-tag before-never-closed when the step overflowed
 			for i, oc := range o.stepOut {
@@ -465,15 +636,21 @@ func child(mode string, in json.RawMessage) any {
 				add("guest-trace-differs-with-listeners:"+eng, fmt.Sprintf("listeners=%s (A = without, B = with)\n%s", set, d))
 			}
 			// top-level params/results and unwind depths
-			checkTopLevel(p, script, o, &lr, eng, add)
+			if rec.overflow {
+				streamOverflow = true
+			} else {
+				checkTopLevel(p, script, o, &lr, eng, add)
+			}
 			if lmode == 1 {
-				checkHostLog(o, &lr, eng, add)
+				if !rec.overflow {
+					checkHostLog(o, &lr, eng, add)
+				}
 				streams[e] = rec.events
 			}
 		}
 	}
 	// cross-engine stream equality (all-functions set), except tail-call programs and stack exhaustion
-	if !usesTC && !soverflow {
+	if !usesTC && !soverflow && !streamOverflow {
 		lr.EngCmp++
 		a, b := streams[0], streams[1]
 		n := min(len(a), len(b))
@@ -552,7 +729,7 @@ func checkTopLevel(p *wgen.Program, script []wrun.Step, o *runOut, lr *lresult, 
 		if st.Kind != "call" {
 			continue
 		}
-		k := fmt.Sprintf("guest.%d", p.FuncIndex[st.Fn])
+		k := guestFid(p.FuncIndex[st.Fn])
 		// events of this step
 		var evs []ev
 		for _, e := range rec.events {
@@ -561,7 +738,7 @@ func checkTopLevel(p *wgen.Program, script []wrun.Step, o *runOut, lr *lresult, 
 			}
 		}
 		// skip the __setfuel bracket (first B/A pair) if listened
-		for len(evs) > 0 && strings.HasPrefix(evs[0].Key, "guest.") && evs[0].Key != k && isHelper(p, evs[0].Key) {
+		for len(evs) > 0 && !evs[0].Key.host() && evs[0].Key != k && isHelper(p, evs[0].Key) {
 			evs = evs[1:]
 		}
 		if len(evs) == 0 || evs[0].K != 'B' || evs[0].Key != k {
@@ -595,10 +772,8 @@ func checkTopLevel(p *wgen.Program, script []wrun.Step, o *runOut, lr *lresult, 
 	}
 }
 
-func isHelper(p *wgen.Program, key string) bool {
-	var idx uint32
-	fmt.Sscanf(key, "guest.%d", &idx)
-	return idx >= uint32(len(p.Host)+len(p.Funcs))
+func isHelper(p *wgen.Program, k fid) bool {
+	return !k.host() && k.idx() >= uint32(len(p.Host)+len(p.Funcs))
 }
 
 func canonArgs(p *wgen.Program, st wrun.Step) []uint64 {
@@ -636,14 +811,14 @@ func checkHostLog(o *runOut, lr *lresult, eng string, add func(string, string)) 
 	}
 	// listener view: Before/After pairs of env.* functions that are "log" hosts, in order of Before
 	type br struct {
-		key       string
+		key       fid
 		args, res string
 		closed    bool
 	}
 	var seen []*br
 	var open []*br
 	for _, e := range o.rec.events {
-		if !strings.HasPrefix(e.Key, "env") {
+		if !e.Key.host() {
 			continue
 		}
 		switch e.K {
@@ -667,9 +842,7 @@ func checkHostLog(o *runOut, lr *lresult, eng string, add func(string, string)) 
 	// map env index -> host name via order: logging hosts are h0..hk at indexes 0..k
 	li := 0
 	for _, b := range seen {
-		var idx int
-		fmt.Sscanf(b.key[strings.LastIndexByte(b.key, '.')+1:], "%d", &idx)
-		name := fmt.Sprintf("h%d", idx)
+		name := fmt.Sprintf("h%d", b.key.idx())
 		// only logging hosts appear in `logged`
 		if li < len(logged) && logged[li].name == name {
 			lr.HostChk++
@@ -692,7 +865,7 @@ func sharedCase(p *wgen.Program, script []wrun.Step, lr *lresult, add func(strin
 		eng := map[bool]string{false: "interp", true: "compiler"}[compiler]
 		cache := wazero.NewCompilationCache()
 		mk := func() (*recorder, *wrun.Session) {
-			rec := &recorder{engine: eng, all: true, tcFuncs: map[string]bool{}, counts: map[string]int{}, listened: func(string, uint32) bool { return true }}
+			rec := &recorder{engine: eng, all: true, tcFuncs: map[fid]bool{}, counts: map[string]int{}, listened: func(fid) bool { return true }}
 			ctx := experimental.WithFunctionListenerFactory(context.Background(), rec)
 			s := wrun.NewSession(wrun.Options{Compiler: compiler, Ctx: ctx, RuntimeConfig: func(rc wazero.RuntimeConfig) wazero.RuntimeConfig {
 				return rc.WithCompilationCache(cache)
@@ -724,4 +897,85 @@ func sharedCase(p *wgen.Program, script []wrun.Step, lr *lresult, add func(strin
 		sB.Close()
 		cache.Close(context.Background())
 	}
+}
+
+func init() { Prop.Replay = replay }
+
+// replay prints the complete event stream (all-functions listener set) of the
+// case in a witness file for both engines, with the automaton's verdicts.
+func replay(c *core.Ctx, path string) int {
+	b, err := os.ReadFile(path)
+	if err != nil {
+		fmt.Println(err)
+		return 2
+	}
+	var w struct {
+		Witness struct {
+			Case lcase `json:"case"`
+		} `json:"witness"`
+	}
+	json.Unmarshal(b, &w)
+	lc := w.Witness.Case
+	r := core.NewRng(int64(lc.Seed), 9)
+	cfg := wgen.DefaultConfig(r)
+	cfg.CallHeavy = r.Chance(3, 4)
+	cfg.TrapHeavy = r.Chance(1, 4)
+	if cfg.HostFuncs == 0 {
+		cfg.HostFuncs = 2
+	}
+	p := wgen.Generate(r, cfg)
+	script := wrun.GenScript(r, p, 3+r.Intn(6))
+	os.WriteFile(path+".wasm", p.Bin, 0o644)
+	fmt.Printf("cfg %+v\nwasm: %s.wasm\n", cfg, path)
+	if rule := os.Getenv("C20_REDUCE"); rule != "" {
+		compiler := os.Getenv("C20_REDUCE_ENGINE") == "compiler"
+		still := func(p *wgen.Program, sc []wrun.Step) bool {
+			o := runWith(p, sc, compiler, 1, 0, nil)
+			for _, v := range o.rec.viols {
+				if v.rule == rule {
+					return true
+				}
+			}
+			return false
+		}
+		if !still(p, script) {
+			fmt.Println("rule does not fire on the unreduced case")
+			return 2
+		}
+		script = wreduce.Reduce(p, script, still, 30000)
+		os.WriteFile(path+".min.wasm", p.Bin, 0o644)
+		fmt.Println("REDUCED script:", script)
+		fmt.Print(wdis.Module(p.Bin))
+	}
+	for _, compiler := range []bool{false, true} {
+		o := runWith(p, script, compiler, 1, 0, nil)
+		fmt.Printf("=== compiler=%v: %d events, %d violations\n", compiler, len(o.rec.events), len(o.rec.viols))
+		limit := 400
+		if s := os.Getenv("C20_EVENTS"); s != "" {
+			fmt.Sscanf(s, "%d", &limit)
+		}
+		first := 0
+		if len(o.rec.viols) > 0 {
+			first = o.rec.viols[0].at
+		}
+		for i, e := range o.rec.events {
+			if i < first-limit/2 {
+				continue
+			}
+			if i >= first+limit/2 {
+				fmt.Println("  …")
+				break
+			}
+			st := e.Stack
+			e.Stack = nil
+			fmt.Printf("  %5d [step %d] %s depth=%d\n", i, e.Step, e.String(), len(st))
+		}
+		for _, v := range o.rec.viols {
+			fmt.Printf("  VIOL %s: %s\n", v.rule, core.Trunc(v.detail, 300))
+		}
+		for i, oc := range o.stepOut {
+			fmt.Printf("  step %d %s -> %s\n", i+1, script[i].String(), oc)
+		}
+	}
+	return 0
 }
